@@ -26,6 +26,9 @@ EXP_SVC_TYPES = ['L2Bridge', 'L2PTP', 'L2STS', 'FABNetv4', 'FABNetv6', 'FABNetv4
 COMP_MODELS = ['GPU_RTX6000', 'GPU_Tesla_T4', 'GPU_A40', 'GPU_A30', 'SharedNIC_ConnectX_6',
                'SmartNIC_BlueField_2_ConnectX_6', 'SmartNIC_ConnectX_6', 'SmartNIC_ConnectX_5',
                'SharedNIC_OpenStack_vNIC', 'NVME_P4510', 'FPGA_Xilinx_U280', 'FPGA_Xilinx_SN1022']
+# components with interfaces take part in far more of the behaviour under test than GPUs and drives do
+COMP_MODELS_NIC_BIAS = ['SharedNIC_ConnectX_6', 'SharedNIC_ConnectX_6', 'SharedNIC_OpenStack_vNIC',
+                        'SmartNIC_ConnectX_6', 'SmartNIC_ConnectX_5', 'SmartNIC_BlueField_2_ConnectX_6']
 
 # ---- pinned copy of fim/graph/data/graph_validation_rules.json vocabularies (rule numbers as in that file)
 RULE_CLASSES = ["ConnectionPoint", "NetworkNode", "CompositeNode", "NetworkService", "Component", "Link"]
@@ -61,7 +64,8 @@ SUBSTRATE_MIX = {
     'checkpoint': 1, 'diff_slivers': 1, 'edit_tracked': 1, 'respell_user_data': 1, 'sliver_copy': 1,
 }
 PROP_BOOST = {
-    'C07': {'add_child_interface': 8, 'remove_node': 5, 'remove_component': 5, 'failing': 6, 'connect_interface': 9},
+    'C07': {'add_child_interface': 8, 'remove_node': 5, 'remove_component': 5, 'failing': 6, 'connect_interface': 9,
+            'peer': 7, 'unpeer': 8, 'remove_switch': 3, 'remove_facility': 3},
     'C08': {'remove_node': 8, 'remove_component': 10, 'remove_network_service': 8, 'disconnect_interface': 8,
             'remove_child_interface': 5, 'unpeer': 5, 'remove_facility': 3, 'remove_switch': 3, 'prune': 3,
             'add_child_interface': 11, 'peer': 5, 'connect_interface': 13, 'add_link': 10, 'svc_add_interface': 10,
@@ -237,8 +241,17 @@ class W2World(World):
             s = w2_ops.generate(self, rng, 'checkpoint', st)
             if s is not None:
                 return s
+        if self.prop == 'C17' and self.checkpoints and rng.random() < 0.12:
+            from . import w2_diff
+            seq = w2_diff.single_edit_sequence(self, rng, st)
+            if seq:
+                self.queue = seq[1:]
+                return seq[0]
         for _ in range(8):
             op = wchoice(rng, self.cfg['mix'])
+            if op == 'failing' and self.prop == 'C09' and self.steps_done <= 0.4 * self.cfg['steps'] and \
+                    self.cfg['steps'] >= 10:
+                continue        # build a model first: rejected calls are most telling in a model that has structure
             s = w2_ops.generate(self, rng, op, st)
             if s is not None:
                 return s
